@@ -324,12 +324,14 @@ def run_multi(ctx):
         for combo in itertools.product('PFS', repeat=n):
             d = os.path.join(ctx.wd, 'multi%d' % k); k += 1
             texts = ['rule f%d {\n  %s\n}\n' % (i, BODY[c]) for i, c in enumerate(combo)]
-            files = {'r%d.guard' % i: t for i, t in enumerate(texts)}
+            same = k % 2 == 0            # every other scenario: one base name in different directories
+            rnames = [('pol/d%d/r.guard' % i) if same else ('r%d.guard' % i) for i in range(n)]
+            files = {nme: t for nme, t in zip(rnames, texts)}
             files['d.json'] = data
             e2e.write_files(d, files)
             rargs = []
-            for i in range(n):
-                rargs += ['-r', 'r%d.guard' % i]
+            for nme in rnames:
+                rargs += ['-r', nme]
             payload = json.dumps({'rules': texts, 'data': [data]}).encode()
             confs = [('files', ['validate'] + rargs + ['-d', 'd.json'], None),
                      ('files-v', ['validate'] + rargs + ['-d', 'd.json', '-v'], None),
